@@ -101,6 +101,8 @@ class C02(Check):
             fid = [0, (1 << 40) - 3, 1 << 32, None][i % 4]
             if fid is not None:
                 cfg["first_amf_id"] = fid
+            if i == 2:
+                cfg["mcc"], cfg["mnc"] = "001", "01"          # a SUPI that begins with 0 (the test PLMN 001/01)
             if i:
                 # IMSIs of 15, 14, 13 and 10 digits (the MSIN is what remains after MCC and MNC)
                 total = [15, 14, 13, 10][i % 4]
